@@ -143,6 +143,11 @@ static inline void ir_memmove(u64 d, u64 s, u64 n) {
   if (((d | s | n) & 7) == 0 && (d <= s || d >= s + n)) { for (u64 i = 0; i < n; i += 8) IR_ST64(d + i, IR_LD64(s + i)); }
   else if (d <= s) for (u64 i = 0; i < n; i++) IR_ST8(d + i, IR_LD8(s + i));
   else for (u64 i = n; i > 0; i--) IR_ST8(d + i - 1, IR_LD8(s + i - 1)); }
+/* both operands 8-byte aligned (known from the IR): whole words first, then the tail */
+static inline void ir_memmove_a8(u64 d, u64 s, u64 n) {
+  u64 w = n & ~7ull;
+  if (d <= s || d >= s + n) { for (u64 i = 0; i < w; i += 8) IR_ST64(d + i, IR_LD64(s + i)); for (u64 i = w; i < n; i++) IR_ST8(d + i, IR_LD8(s + i)); }
+  else { for (u64 i = n; i > w; i--) IR_ST8(d + i - 1, IR_LD8(s + i - 1)); for (u64 i = w; i > 0; i -= 8) IR_ST64(d + i - 8, IR_LD64(s + i - 8)); } }
 u64 ir_dyn_alloca(u64 n);
 #define IR_NOGLOBAL 8ull   /* address of a global the harness excluded: any access faults */
 #define IR_CPY64(d, s) IR_ST64(d, IR_LD64(s))
